@@ -102,4 +102,41 @@ Section All.
       try (left; rewrite Ho; reflexivity); right; rewrite Eq;
       rewrite (check_result_spec _ Hr1 Hr2); reflexivity.
   Qed.
+
+  (* ---- what the script itself declares: with the library evaluated before the script, the model follows the
+     standard rules (own function wins, helpers available while loading, const of a helper's name = script error) ---- *)
+  Hypothesis Hlib : library_before_script = true.
+
+  Lemma scoped_call_meets sc e h args :
+    env_quads e ->
+    spec_scoped_call sc e h args = OutsideModel \/ scoped_call sc (call_helper e) h args = spec_scoped_call sc e h args.
+  Proof.
+    intro He. unfold scoped_call, spec_scoped_call, shadow_in_force. rewrite Hlib. cbn [orb].
+    destruct (lookup_helper h (sc_shadow sc)); [right; reflexivity|]. apply helpers_meet_reference. exact He.
+  Qed.
+
+  Lemma scoped_script_meets sc e url host t :
+    env_quads e ->
+    eval_tree (spec_scoped_call sc e) url host t = OutsideModel \/
+    eval_tree (scoped_call sc (call_helper e)) url host t = eval_tree (spec_scoped_call sc e) url host t.
+  Proof.
+    intro He. induction t as [v|h args|h args yes IHy no IHn]; cbn [eval_tree].
+    - right. reflexivity.
+    - destruct (scoped_call_meets sc e h (map (arg_val url host) args) He) as [Ho|Eq].
+      + left. rewrite Ho. reflexivity.
+      + right. rewrite Eq. reflexivity.
+    - destruct (scoped_call_meets sc e h (map (arg_val url host) args) He) as [Ho|Eq].
+      + left. rewrite Ho. reflexivity.
+      + rewrite Eq. destruct (spec_scoped_call sc e h (map (arg_val url host) args)) as [v| |]; try (right; reflexivity).
+        destruct (truthy v); assumption.
+  Qed.
+
+  Lemma creation_meets sc t :
+    scope_creation sc t <> CreationPanic /\
+    (scope_creation sc t = Created <-> spec_creation_fails sc = false).
+  Proof.
+    unfold scope_creation, spec_creation_fails. rewrite Hlib. cbn [negb andb].
+    destruct (sc_lexical sc) as [h|]; [destruct (is_js_helper h)|]; rewrite ?andb_false_r;
+      split; try discriminate; split; intro; try reflexivity; try discriminate.
+  Qed.
 End All.
